@@ -330,6 +330,17 @@ theorem valid_single_name (name : List Nat) (s : Bytes) (i : Nat) (h : getTester
   rw [h]
   simp only [sbValidate_fst]
 
+/-- `encoding::validate_or_filter(name,…)`: a name `is_utf8` recognises goes to the UTF-8 filter, a
+name resolving to a single-byte code page to the byte filter with that page's predicate — so the
+filter theorems above apply to the public entry point -/
+theorem validate_or_filter_dispatch (name : List Nat) (s : Bytes) (repl : UInt8) :
+    (isUtf8 name = true → validateOrFilter name s repl = .done (filterUtf8 s repl).1 (filterUtf8 s repl).2) ∧
+    (∀ i, isUtf8 name = false → getTester name = some (.single i) →
+      validateOrFilter name s repl = .done (filterSingle (sbPred i) s repl).1 (filterSingle (sbPred i) s repl).2) := by
+  constructor
+  · intro h; simp [validateOrFilter, h]
+  · intro i h hg; simp [validateOrFilter, h, hg]
+
 /-! ## non-vacuity: instances meeting the hypotheses, and the classic malformed inputs -/
 
 example : Cms.next true [0xC3, 0xA9, 0x41] = (.cp 0xE9, [0x41]) := by decide
@@ -358,6 +369,8 @@ example : getTester [73, 83, 79, 45, 56, 56, 53, 57, 45, 49] = some (.single 1) 
 example : getTester [85, 84, 70, 45, 56] = some .utf8 ∧ isUtf8 [85, 84, 70, 45, 56] = true := by decide  -- "UTF-8"
 example : getTester [119, 105, 110, 100, 111, 119, 115, 49, 50, 53, 52] = none := by decide  -- windows1254: not registered
 example : valid [108, 97, 116, 105, 110, 49] [0x41, 0xE9] = .ok true 2 := by decide
+example : validateOrFilter [108, 97, 116, 105, 110, 49] [0x41, 0x85, 0x42] 63 = .done false (some [0x41, 63, 0x42]) := by decide
+example : validateOrFilter [85, 84, 70, 45, 56] [0x41, 0xFF] 0 = .done false (some [0x41]) := by decide
 example : valid [108, 97, 116, 105, 110, 49] [0x41, 0x85, 0x42] = .ok false 2 := by decide
 
 end Cppcms.C14.Props
